@@ -358,23 +358,27 @@ Definition c09_case_noreadd (x : ccase) : bool :=
     exactly those pairs. *)
 Definition pair_in (cp : (N * Z) * (N * Z)) (l : list ((N * Z) * (N * Z))) : bool :=
   existsb (fun x => id_in (fst cp) [fst x] && id_in (snd cp) [snd x]) l.
+(** the parents the code registers for an entry: those reached from the child through links
+    present on the target ([parents_of], the lookup of [ErrorQueue._addParentObjs]), provided the
+    child itself is known - on the target, or in the expected state (an 'added' entry: attribute
+    0 of a queue observation holds the kind of the entry, 0 = added). Every other (child,
+    ancestor) pair is stale: the policy cannot see it (finding F21). *)
+Definition qk_added (o : obj) : bool := match o !! 0%N with Some (VInt 0) => true | _ => false end.
+Definition unregistered (c : ccfg) (w : world) (known : bool) (t : N) (o : obj) : list (N * Z) :=
+  let anc := ancestors c (S (length (cc_types c))) t o in
+  if known then List.filter (fun p => negb (id_in p (parents_of c w (S (length (cc_types c))) t o))) anc else anc.
+Definition on_target (w : world) (i : N * Z) : bool := match w !! i with Some _ => true | None => false end.
 Definition stale_step (c : ccfg) (w : world) (cl : call) (st : list ((N * Z) * (N * Z))) :=
   if hres_eqb (cl_out cl) HOk then st else
   let ch := (cl_t cl, cl_k cl) in
   let o := match cl_new cl, cl_old cl with Some o, _ => o | None, Some o => o | None, None => mk_obj [] end in
-  let anc := ancestors c (S (length (cc_types c))) (cl_t cl) o in
-  (if match w !! ch with Some _ => false | None => true end
-      || existsb (fun p => match w !! p with Some _ => false | None => true end) anc
-   then map (fun p => (ch, p)) anc else []) ++ st.
-(** ... and the pairs (child, parent) such that the child had queue entries, as seen by some
-    handler invocation, while the parent (or the child) was absent from the target: the entry
-    may have been appended by a deferral, without any failed call of its own *)
+  let known := match cl_kind cl with HAdded | HRecycled => true | _ => on_target w ch end in
+  map (fun p => (ch, p)) (unregistered c w known (cl_t cl) o) ++ st.
+(** ... and the same for every entry seen by a handler invocation: the entry may have been
+    appended by a deferral, without any failed call of its own *)
 Definition stale_snap (c : ccfg) (w : world) (q : list (N * Z * obj)) (st : list ((N * Z) * (N * Z))) :=
-  flat_map (fun e => let anc := ancestors c (S (length (cc_types c))) (fst (fst e)) (snd e) in
-                     (* the chain of parents is followed through the local cache: one absent link hides all the others *)
-                     if match w !! fst e with Some _ => false | None => true end
-                        || existsb (fun p => match w !! p with Some _ => false | None => true end) anc
-                     then map (fun p => (fst e, p)) anc else []) q ++ st.
+  flat_map (fun e => map (fun p => (fst e, p))
+                         (unregistered c w (qk_added (snd e) || on_target w (fst e)) (fst (fst e)) (snd e))) q ++ st.
 Fixpoint c09_direct_ns (c : ccfg) (pol : fkpolicy) (skip : list (N * Z)) (st : list ((N * Z) * (N * Z)))
          (w : world) (cls : list call) (qs : list (list (N * Z * obj))) : bool :=
   match cls, qs with
